@@ -144,9 +144,10 @@ def tokens_for(f):
     for k, v in f.items():
         if k == "" or k[0] in "{[":
             return None
-        if isinstance(v, dict) and v == {"$exists": True} and len(f) == 1:
-            return [k]
-        if isinstance(v, dict) and set(v) == {"$regex"} and isinstance(v["$regex"], str) and "/" not in v["$regex"]:
+        if isinstance(v, dict) and v == {"$exists": True} and k == list(f)[-1]:
+            # a trailing bare key means $exists (odd token count)
+            return toks + [k]
+        if isinstance(v, dict) and set(v) == {"$regex"} and isinstance(v["$regex"], str):
             toks += [k, "/" + v["$regex"] + "/"]
             continue
         t = token_for_value(v)
@@ -236,6 +237,10 @@ def oracle_tables(token_lists):
     return floats, jsons
 
 
+def qg_scalar(v):
+    return v is None or isinstance(v, (bool, int, float, str))
+
+
 def coq_z(z):
     return "(%d)%%Z" % z
 
@@ -248,8 +253,8 @@ def coq_obs(kind, val):
     return ("(ObsIds %s)" % coq_list([coq_str(i) for i in val], "str")) if kind == "ids" else f"(ObsExn {val})"
 
 
-GROUP_KEYS = ["a", "b", "sp.a", "c.x", "sp.c.x", "doc.d", "doc.b", "doc.d.x", "c", "zz",
-              ["a", "b"], ["a", "doc.d"], ["doc.d", "a"], ["sp.a", "c.x"]]
+GROUP_KEYS = ["a", "b", "sp.a", "c.x", "sp.c.x", "doc.d", "doc.b", "doc.d.x", "c", "zz", "sp.doc.rev", "doc.rev", "sp.doc", "rev",
+              ["a", "b"], ["a", "doc.d"], ["doc.d", "a"], ["sp.a", "c.x"], ["sp.doc.rev", "a"], ["doc.b", "b", "doc.d"]]
 DEFAULTS = [None, None, -1, "zz", 0, "", False, 0.0]
 BIG_INTS = [2 ** 53, 2 ** 53 + 1, 2 ** 53 + 2, 2 ** 60 + 1, -(2 ** 53 + 1), 10 ** 17 + 1]
 
@@ -262,6 +267,13 @@ def gen_inputs(tier, rng):
         plain = [{"sp": untyped(j["sp"]), "doc": untyped(j["doc"])} for j in jobs]
         pairs = qg.present_pairs(plain)
         filters = rng.sample(qg.FIXED, 6) + [qg.rand_filter(rng, rng.randint(0, 2), pairs) for _ in range(14)]
+        # token spellings with a trailing bare key (odd token count >= 3) and regex tokens with slashes
+        for _ in range(3):
+            if pairs:
+                (k1, v1), (k2, _v2) = rng.choice(pairs), rng.choice(pairs)
+                if k1 != k2 and qg_scalar(v1):
+                    filters.append({k1: v1, k2: {"$exists": True}})
+        filters.append({rng.choice(["a", "b", "doc.d"]): {"$regex": rng.choice(["/d", "a/$", "^/", "/", "/da"])}})
         if i % 4 == 0:
             # integers that are not exactly representable as doubles (64-bit seeds), also as command-line tokens
             for j in jobs:
